@@ -266,3 +266,28 @@ impl LuaIndex for DbIndex {
         self.json_schema_index.clear();
     }
 }
+
+/// Verification hook (feature `verif-hooks`, off by default).
+#[cfg(feature = "verif-hooks")]
+impl DbIndex {
+    /// Entry counts of every container of every index, the VFS and the module tree.
+    pub fn verif_index_sizes(&self) -> Vec<(&'static str, usize)> {
+        let mut sizes = Vec::new();
+        sizes.extend(self.decl_index.verif_sizes());
+        sizes.extend(self.references_index.verif_sizes());
+        sizes.extend(self.types_index.verif_sizes());
+        sizes.extend(self.modules_index.verif_sizes());
+        sizes.extend(self.members_index.verif_sizes());
+        sizes.extend(self.property_index.verif_sizes());
+        sizes.extend(self.signature_index.verif_sizes());
+        sizes.extend(self.diagnostic_index.verif_sizes());
+        sizes.extend(self.operator_index.verif_sizes());
+        sizes.extend(self.flow_index.verif_sizes());
+        sizes.extend(self.file_dependencies_index.verif_sizes());
+        sizes.extend(self.metatable_index.verif_sizes());
+        sizes.extend(self.global_index.verif_sizes());
+        sizes.extend(self.json_schema_index.verif_sizes());
+        sizes.extend(self.vfs.verif_sizes());
+        sizes
+    }
+}
